@@ -578,6 +578,8 @@ func build(n *Node, e *Env) (z.ZogSchema, reflect.Type) {
 					needle := reflect.New(et.Elem())
 					needle.Elem().Set(reflect.ValueOf(ts.Arg.Go()).Convert(et.Elem()))
 					s.Contains(needle.Interface(), o...)
+				} else if et.Kind() == reflect.Slice {
+					s.Contains(own(e, TypedSlice(et, *ts.Arg)), o...)
 				} else {
 					s.Contains(reflect.ValueOf(ts.Arg.Go()).Convert(et).Interface(), o...)
 				}
